@@ -195,7 +195,10 @@ Definition monitor_ok (k : case) : bool :=
     | Some (a, b) => if exists_after_cleaning g [a; b] then outcome_eqb o Terminated else negb (outcome_eqb o Hung)
     | None => outcome_eqb o Terminated
     end
-  | KSub _ _ _ o _ _ _ => outcome_eqb o Terminated
+  | KSub _ _ _ o _ ps _ =>
+    (* terminated, and no pod set with a non-positive minimum reaches the actions
+       (they slice task lists by it: splitVictimTasks) *)
+    outcome_eqb o Terminated && forallb (fun p => 1 <=? snd p) ps && negb (Nat.eqb (List.length ps) 0)
   | KSample o => outcome_eqb o Terminated
   | KCycle _ _ o same => outcome_eqb o Terminated && same
   end.
